@@ -6,6 +6,7 @@ package main
 // effect log (printed as `list effect`).
 
 import (
+	"github.com/elementsproject/peerswap/policy"
 	"crypto/sha256"
 	"encoding/hex"
 	"encoding/json"
@@ -111,6 +112,9 @@ type Env struct {
 	// additive (crash steps): when set, the simulated crash ends the calling goroutine (runtime.Goexit) instead of
 	// panicking, for entry points that run the machine on a goroutine of their own (RecoverSwaps)
 	crashExit bool
+	// additive (svc harness): when set, peer admission questions go to a REAL policy.Policy built from a file; the
+	// flags PeerAllowed / PeerSuspicious above then hold the ground truth derived from the file's lists
+	realPol *policy.Policy
 }
 
 // SvcPlan: answers for the service-level pre-checks (used by the svc harness); nil fields = permissive defaults
@@ -302,8 +306,18 @@ func (m *fakeManager) RemoveSender(id string) {
 // ---- policy ----
 type fakePolicy struct{ env *Env }
 
-func (p *fakePolicy) IsPeerAllowed(peer string) bool    { return p.env.PeerAllowed }
-func (p *fakePolicy) IsPeerSuspicious(peer string) bool { return p.env.PeerSuspicious }
+func (p *fakePolicy) IsPeerAllowed(peer string) bool {
+	if p.env.realPol != nil {
+		return p.env.realPol.IsPeerAllowed(peer)
+	}
+	return p.env.PeerAllowed
+}
+func (p *fakePolicy) IsPeerSuspicious(peer string) bool {
+	if p.env.realPol != nil {
+		return p.env.realPol.IsPeerSuspicious(peer)
+	}
+	return p.env.PeerSuspicious
+}
 func (p *fakePolicy) AddToSuspiciousPeerList(pubkey string) error {
 	e := p.env
 	e.mu.Lock()
